@@ -42,6 +42,9 @@ func genC15(rng *rand.Rand, tier string) *sim.Plan {
 		p.Broker.MaxInflight = p.Broker.MaxQueued
 	}
 	p.Broker.SessionExpiryS = sim.Int(60)
+	// short in-flight expiry: with a small queue, deliveries into a session that is being resumed find expired
+	// in-flight entries to sacrifice (queue lock and packet-id limiter lock meet)
+	p.Broker.InflightExpiryS = sim.Int(pick(rng, []int{1, 2, 30}))
 	n := 3 + rng.IntN(5)
 	if tier == "thorough" {
 		n = 3 + rng.IntN(9)
